@@ -26,7 +26,7 @@ type VerbatimCase struct {
 	Text   string `json:"text,omitempty"`
 }
 
-var c08Positions = []string{"field-value", "bare", "cmp", "range-lo", "range-hi", "range-both", "range-open-hi", "list", "not", "must", "mustnot", "field-name", "and-bare", "group"}
+var c08Positions = []string{"field-value", "bare", "cmp", "range-lo", "range-hi", "range-both", "range-open-hi", "bare-df", "and-bare-df", "not-bare-df", "list", "not", "must", "mustnot", "field-name", "and-bare", "group"}
 
 func (c VerbatimCase) val() *gen.Val {
 	if c.Clause == "quote" {
@@ -38,6 +38,14 @@ func (c VerbatimCase) val() *gen.Val {
 // build returns the query text, a function that finds the leaf in the parsed tree,
 // a function that finds the constant in the inline SQL, the expected parameter
 // index, and whether the value is used as a column name.
+// df returns the default field the position is parsed with ("" = none).
+func (c VerbatimCase) df() string {
+	if strings.HasSuffix(c.Pos, "-df") {
+		return "dflt"
+	}
+	return ""
+}
+
 func (c VerbatimCase) build() (text string, leaf func(*expr.Expression) any, sqlc func(*sqlx.Expr) *sqlx.Expr, paramIdx int) {
 	v := c.val().Src
 	l := func(e *expr.Expression) *expr.Expression { x, _ := e.Left.(*expr.Expression); return x }
@@ -128,6 +136,12 @@ func (c VerbatimCase) build() (text string, leaf func(*expr.Expression) any, sql
 		return "g:1 AND " + v, func(e *expr.Expression) any { return val(r(e)) }, arg(1), 1
 	case "group":
 		return "f:(" + v + ")", func(e *expr.Expression) any { return val(r(e)) }, arg(1), 0
+	case "bare-df": // the bare value scoped by a default field: dflt = v
+		return v, func(e *expr.Expression) any { return val(r(e)) }, arg(1), 0
+	case "and-bare-df":
+		return "g:1 AND " + v, func(e *expr.Expression) any { return val(r(r(e))) }, func(w *sqlx.Expr) *sqlx.Expr { return arg(1)(arg(1)(w)) }, 1
+	case "not-bare-df":
+		return "NOT " + v, func(e *expr.Expression) any { return val(r(l(e))) }, func(w *sqlx.Expr) *sqlx.Expr { return arg(1)(arg(0)(w)) }, 0
 	case "field-name":
 		return v + ":x", func(e *expr.Expression) any {
 			x := l(e)
@@ -151,7 +165,15 @@ func checkC08(c VerbatimCase, active map[string]bool) (f *report.Failure, exclud
 		}
 	}()
 	rangePos := strings.HasPrefix(c.Pos, "range-")
-	e, err := lucene.Parse(text)
+	var opts []func()
+	_ = opts
+	parse := func() (*expr.Expression, error) {
+		if c.df() != "" {
+			return lucene.Parse(text, lucene.WithDefaultField(c.df()))
+		}
+		return lucene.Parse(text)
+	}
+	e, err := parse()
 	if err != nil {
 		return report.Failf(c.Clause+":rejected", "Parse(%q) fails: %v; the %s value %s at position %s should be one string value", text, err, c.Clause, c.WQ, c.Pos), ""
 	}
@@ -163,7 +185,7 @@ func checkC08(c VerbatimCase, active map[string]bool) (f *report.Failure, exclud
 	}
 	refusal := !utf8.ValidString(c.W) || strings.ContainsRune(c.W, 0)
 	colRefusal := c.Pos == "field-name" && (c.W == "" || strings.Contains(c.W, `"`))
-	sql, serr := lucene.ToPostgres(text)
+	sql, serr := toPG(text, c.df())
 	if serr != nil {
 		if !(refusal || colRefusal) {
 			return report.Failf(c.Clause+":inline-error", "ToPostgres(%q) fails (%v) although %s is a NUL-free valid UTF-8 value", text, serr, c.WQ), ""
@@ -182,7 +204,7 @@ func checkC08(c VerbatimCase, active map[string]bool) (f *report.Failure, exclud
 			return report.Failf(c.Clause+":inline-constant", "ToPostgres(%q) = %s: the constant PostgreSQL decodes at position %s is %v, want the string %s", text, sql, c.Pos, k, c.WQ), ""
 		}
 	}
-	psql, params, perr := lucene.ToParameterizedPostgres(text)
+	psql, params, perr := toPGParam(text, c.df())
 	if perr != nil {
 		if !(refusal || colRefusal) {
 			return report.Failf(c.Clause+":param-error", "ToParameterizedPostgres(%q) fails (%v)", text, perr), ""
